@@ -12,8 +12,8 @@ LEVEL_TEXT = (
     'PrimitiveStyle stroke/fill areas, Circle/Ellipse contains + center_2x + thresholds + offset, EllipseQuadrant, CornerRadii::confine, '
     'Line delta/perpendicular/midpoint, BresenhamParameters, the complete Line::points loop (exactly major_length <= 2049 steps), '
     'increase/decrease_error, next_all/previous_all and ParallelsIterator::next per step with inductive invariants, '
-    'ParallelsIterator::new / ThickPoints::new (i64 threshold), LinearEquation, IntersectionParams (i64 numerators, round_div), the miter '
-    'test, Triangle area_doubled / contains (whole path), mono text layout (baseline offset, measure_string, draw_string, line advance), '
+    'ParallelsIterator::new / ThickPoints::new (i64 threshold), LinearEquation, IntersectionParams (i64 numerators, round_div), the join '
+    'points (|coordinate| <= 13108481 proved: SaturatingAs never saturates, `intersection - mid` cannot overflow) and the miter test, Triangle area_doubled / contains (whole path), mono text layout (baseline offset, measure_string, draw_string, line advance), '
     'LineHeight, ImageRaw bytes_per_row / data_width / draw / draw_sub_image / pixel, ContiguousPixels (every step safe; stops after '
     'exactly w*h+1 calls) and Cropped. Tie 1 (translator): translate/gen_arith.py regenerates from the tree under test the '
     'identifier-free skeleton of every arithmetic / cast / index / unwrap site of every non-test function of 22 source files; '
@@ -129,7 +129,7 @@ def isqrt(n):
 
 
 def cases(tier, rng):
-    n = 2500 if tier == 'quick' else 60000
+    n = 2500 if tier == 'quick' else 25000
     for _ in range(n):
         a, b, c, d = ei(rng), ei(rng), ei(rng), ei(rng)
         yield J('ok_point', rng.choice(['add', 'sub', 'mul', 'div', 'neg', 'abs', 'cmul', 'cdiv', 'addassign']), a, b, c, d)
@@ -285,7 +285,7 @@ def search(tier, rng):
 
 
 def search_default(tier, rng):
-    n = 1500 if tier == 'quick' else 40000
+    n = 1500 if tier == 'quick' else 12000
     # regression inputs of the repaired overflow defects (DESIGN.md section 6, known_findings.txt `fixed:` lines)
     yield 'p_total ellipse 0 0 320 240 S 1 1 3 1'
     yield 'p_total line 0 0 1000 700 S 0 1 30 1'
